@@ -18,7 +18,7 @@ SPEC = {
             "Compared for EVERY cell against cubical_model.h (coordinate tuples in the doubled grid): dimension; boundary as a multiset and "
             "coboundary as a set against the geometric (wrap-around) faces/cofaces; boundary/coboundary converse (library answers only); "
             "two distinct ends per edge; alternating signs along the enumeration compose to zero (dd=0); compute_incidence_between_cells is "
-            "+-1, equals the documented formula and alternates along the enumerated boundary (the documented guarantee); value = min over top "
+            "+-1, alternates along the enumerated boundary (the documented guarantee) and composes to zero (agreement with the documented sign formula is counted, not judged: the property fixes no sign convention); value = min over top "
             "cells containing the cell / max over its vertices; get_top_dimensional_coface_of_a_cell (top-cell input) / get_vertex_of_a_cell "
             "(vertex input) return an incident cell of the right dimension with the same value (any such cell); iteration order of top cells and "
             "vertices (empty range of top cells when a vertex grid has a single vertex in some direction). Per grid ~40 NON-incident pairs (face "
